@@ -49,4 +49,12 @@ CHECKS = {
         "including 'a fresh hash never needs an update', and that refusals occur only for inconsistent configurations.",
    note="Trusted: z3; scheme digest/parse/render stubs (listed in evidence) - those parts are C02/C07. Bound: 4 templates, 2-3 schemes, "
         "one override category. Outside: INI text, float vary_rounds."),
+ "C05": dict(engine="E1-zshadow", category="other", design_ref="DESIGN.md §4 C05",
+   technique="symbolic execution of the real hash() paths over UTF-8 width patterns (cipher = recorder) + z3",
+   text="For every UTF-8 width pattern around each limit (and raw bytes) z3 shows, for all character contents, that the truncation "
+        "error is raised exactly when the byte length exceeds the limit with truncate_error set (on the hasher, its wrapper or the "
+        "context), that otherwise the cipher key consists of exactly the first limit bytes, that NUL is refused at every position, "
+        "and that bcrypt forwards the unchanged UTF-8 bytes; 4096/4097 size limit checked on every registered hasher (finite).",
+   note="Trusted: z3; the DES block function is replaced by a recorder (C11 covers it). Outside: lmhash/cisco formats' digest "
+        "input (C02), libxcrypt."),
 }
